@@ -799,8 +799,11 @@ package compose
 //@   ensures[fields] result.name == name && result.arg == arg && result.callID == callID && result.r != nil && result.meta != nil && result.err == nil
 
 //@ func newRunnablePacker
-//@   trusted builds the four-paradigm runnable from the supplied functions (C04)
+//@   props C04
+//@   modifies fresh()
 //@   ensures[nonnil] result != nil && fresh(result)
+//@   ensures[native_paradigms_used_as_they_are] @C04 !enableCallback ==> (i != nil ==> result.i == i) && (s != nil ==> result.s == s) && (c != nil ==> result.c == c) && (t != nil ==> result.t == t)
+//@   ensures[all_four_paradigms_available] @C04 (i != nil || s != nil || c != nil || t != nil) ==> result.i != nil && result.s != nil && result.c != nil && result.t != nil
 
 //@ func (*ToolsNode).genToolCallTasks
 //@   props C17
@@ -1346,3 +1349,306 @@ package compose
 //@   ensures[own_state] @C11 is(ctxValue(result, "stateKey"), "*internalState") && fresh(stateOf(result)) && stateOf(result) != nil
 //@   ensures[unlocked] @C11 !held(stateOf(result).mu)
 //@   ensures[others_kept] ctxValue(result, "nodePathKey") == ctxValue(ctx, "nodePathKey") && ctxValue(result, "checkPointKey") == ctxValue(ctx, "checkPointKey")
+
+// ---------------------------------------------------------------------------------------------------
+// runnable.go — derivation of the missing calling paradigms from the implemented ones (C04)
+// ---------------------------------------------------------------------------------------------------
+
+//@ func defaultImplConcatStreamReader
+//@   props C04 C13
+//@   requires sr != nil
+//@   ensures[one_outcome] result1 == nil || true
+//@   ensures[error_is_wrapped] result1 != nil ==> is(result1, "*internalError")
+
+//@ func invokeByStream$1
+//@   props C04 C13
+//@   requires s != nil
+//@   ghost calls int = 0
+//@   ghost nerr error = nil
+//@   ghost nout any = nil
+//@   at call s: assert[input_passed_unchanged] @C04 box(arg1) == box(input)
+//@   at call s: ghost calls++
+//@   after call s: ghost nerr = result1
+//@   after call s: ghost nout = result0
+//@   after call s: assume result1 != nil || result0 != nil
+//@   note assumed: a node's stream function does not return a nil stream together with a nil error
+//@   ghost outErr error = nil
+//@   ghost outCat any = nil
+//@   at call 1 defaultImplConcatStreamReader: assert[concats_the_native_stream] @C04 nerr == nil && box(arg0) == nout
+//@   after call 1 defaultImplConcatStreamReader: ghost outErr = result1
+//@   after call 1 defaultImplConcatStreamReader: ghost outCat = result0
+//@   ensures[native_called_once] @C04 calls == 1
+//@   ensures[native_error_reported] @C04,C13 nerr != nil ==> err != nil && errorsIs(err, nerr)
+//@   ensures[output_is_concat_of_native_stream] @C04 nerr == nil ==> err == outErr && (outErr == nil ==> box(output) == outCat)
+
+//@ func invokeByCollect$1
+//@   props C04 C13
+//@   requires c != nil
+//@   ghost calls int = 0
+//@   ghost nerr error = nil
+//@   ghost nout any = nil
+//@   at call c: assert[input_boxed_as_one_chunk] @C04 arg1 != nil && arg1.typ == schema.readerTypeArray && arg1.ar != nil && arg1.ar.index == 0 && len(arg1.ar.arr) == 1 && box(arg1.ar.arr[0]) == box(input)
+//@   at call c: ghost calls++
+//@   after call c: ghost nerr = result1
+//@   after call c: ghost nout = result0
+//@   ensures[native_called_once] @C04 calls == 1
+//@   ensures[native_error_reported] @C04,C13 nerr != nil ==> err != nil && errorsIs(err, nerr)
+//@   ensures[native_output_returned] @C04 nerr == nil ==> err == nil && box(output) == nout
+
+//@ func invokeByTransform$1
+//@   props C04 C13
+//@   requires t != nil
+//@   ghost calls int = 0
+//@   ghost nerr error = nil
+//@   ghost nout any = nil
+//@   at call t: assert[input_boxed_as_one_chunk] @C04 arg1 != nil && arg1.typ == schema.readerTypeArray && arg1.ar != nil && arg1.ar.index == 0 && len(arg1.ar.arr) == 1 && box(arg1.ar.arr[0]) == box(input)
+//@   at call t: ghost calls++
+//@   after call t: ghost nerr = result1
+//@   after call t: ghost nout = result0
+//@   after call t: assume result1 != nil || result0 != nil
+//@   note assumed: a node's stream function does not return a nil stream together with a nil error
+//@   ghost outErr error = nil
+//@   ghost outCat any = nil
+//@   at call 1 defaultImplConcatStreamReader: assert[concats_the_native_stream] @C04 nerr == nil && box(arg0) == nout
+//@   after call 1 defaultImplConcatStreamReader: ghost outErr = result1
+//@   after call 1 defaultImplConcatStreamReader: ghost outCat = result0
+//@   ensures[native_called_once] @C04 calls == 1
+//@   ensures[native_error_reported] @C04,C13 nerr != nil ==> err != nil && errorsIs(err, nerr)
+//@   ensures[output_is_concat_of_native_stream] @C04 nerr == nil ==> err == outErr && (outErr == nil ==> box(output) == outCat)
+
+//@ func streamByTransform$1
+//@   props C04 C13
+//@   requires t != nil
+//@   ghost calls int = 0
+//@   ghost nerr error = nil
+//@   ghost nout any = nil
+//@   at call t: assert[input_boxed_as_one_chunk] @C04 arg1 != nil && arg1.typ == schema.readerTypeArray && arg1.ar != nil && arg1.ar.index == 0 && len(arg1.ar.arr) == 1 && box(arg1.ar.arr[0]) == box(input)
+//@   at call t: ghost calls++
+//@   after call t: ghost nerr = result1
+//@   after call t: ghost nout = result0
+//@   ensures[native_called_once] @C04 calls == 1
+//@   ensures[native_error_reported] @C04,C13 nerr != nil ==> err != nil && errorsIs(err, nerr)
+//@   ensures[native_output_returned] @C04 nerr == nil ==> err == nil && box(output) == nout
+
+//@ func streamByInvoke$1
+//@   props C04 C13
+//@   requires i != nil
+//@   ghost calls int = 0
+//@   ghost nerr error = nil
+//@   ghost nout any = nil
+//@   at call i: assert[input_passed_unchanged] @C04 box(arg1) == box(input)
+//@   at call i: ghost calls++
+//@   after call i: ghost nerr = result1
+//@   after call i: ghost nout = result0
+//@   ensures[native_called_once] @C04 calls == 1
+//@   ensures[native_error_reported] @C04,C13 nerr != nil ==> err != nil && errorsIs(err, nerr)
+//@   ensures[output_boxed_as_one_chunk] @C04 nerr == nil ==> err == nil && output != nil && output.typ == schema.readerTypeArray && output.ar != nil && output.ar.index == 0 && len(output.ar.arr) == 1 && box(output.ar.arr[0]) == nout
+
+//@ func streamByCollect$1
+//@   props C04 C13
+//@   requires c != nil
+//@   ghost calls int = 0
+//@   ghost nerr error = nil
+//@   ghost nout any = nil
+//@   at call c: assert[input_boxed_as_one_chunk] @C04 arg1 != nil && arg1.typ == schema.readerTypeArray && arg1.ar != nil && arg1.ar.index == 0 && len(arg1.ar.arr) == 1 && box(arg1.ar.arr[0]) == box(input)
+//@   at call c: ghost calls++
+//@   after call c: ghost nerr = result1
+//@   after call c: ghost nout = result0
+//@   ensures[native_called_once] @C04 calls == 1
+//@   ensures[native_error_reported] @C04,C13 nerr != nil ==> err != nil && errorsIs(err, nerr)
+//@   ensures[output_boxed_as_one_chunk] @C04 nerr == nil ==> err == nil && output != nil && output.typ == schema.readerTypeArray && output.ar != nil && output.ar.index == 0 && len(output.ar.arr) == 1 && box(output.ar.arr[0]) == nout
+
+//@ func collectByTransform$1
+//@   props C04 C13
+//@   requires t != nil && input != nil
+//@   ghost calls int = 0
+//@   ghost nerr error = nil
+//@   ghost nout any = nil
+//@   at call t: assert[input_passed_unchanged] @C04 box(arg1) == box(input)
+//@   at call t: ghost calls++
+//@   after call t: ghost nerr = result1
+//@   after call t: ghost nout = result0
+//@   after call t: assume result1 != nil || result0 != nil
+//@   note assumed: a node's stream function does not return a nil stream together with a nil error
+//@   ghost outErr error = nil
+//@   ghost outCat any = nil
+//@   at call 1 defaultImplConcatStreamReader: assert[concats_the_native_stream] @C04 nerr == nil && box(arg0) == nout
+//@   after call 1 defaultImplConcatStreamReader: ghost outErr = result1
+//@   after call 1 defaultImplConcatStreamReader: ghost outCat = result0
+//@   ensures[native_called_once] @C04 calls == 1
+//@   ensures[native_error_reported] @C04,C13 nerr != nil ==> err != nil && errorsIs(err, nerr)
+//@   ensures[output_is_concat_of_native_stream] @C04 nerr == nil ==> err == outErr && (outErr == nil ==> box(output) == outCat)
+
+//@ func collectByInvoke$1
+//@   props C04 C13
+//@   requires i != nil && input != nil
+//@   ghost calls int = 0
+//@   ghost nerr error = nil
+//@   ghost nout any = nil
+//@   ghost inErr error = nil
+//@   ghost inCat any = nil
+//@   at call 1 defaultImplConcatStreamReader: assert[concats_the_input_stream] @C04 arg0 == input
+//@   after call 1 defaultImplConcatStreamReader: ghost inErr = result1
+//@   after call 1 defaultImplConcatStreamReader: ghost inCat = result0
+//@   at call i: assert[native_gets_the_concatenated_input] @C04 inErr == nil && box(arg1) == inCat
+//@   at call i: ghost calls++
+//@   after call i: ghost nerr = result1
+//@   after call i: ghost nout = result0
+//@   ensures[input_concat_error_reported] @C04 inErr != nil ==> err == inErr && calls == 0
+//@   ensures[native_called_once] @C04 inErr == nil ==> calls == 1
+//@   ensures[native_error_reported] @C04,C13 inErr == nil && nerr != nil ==> err != nil && errorsIs(err, nerr)
+//@   ensures[native_output_returned] @C04 inErr == nil && nerr == nil ==> err == nil && box(output) == nout
+
+//@ func collectByStream$1
+//@   props C04 C13
+//@   requires s != nil && input != nil
+//@   ghost calls int = 0
+//@   ghost nerr error = nil
+//@   ghost nout any = nil
+//@   ghost inErr error = nil
+//@   ghost inCat any = nil
+//@   at call 1 defaultImplConcatStreamReader: assert[concats_the_input_stream] @C04 arg0 == input
+//@   after call 1 defaultImplConcatStreamReader: ghost inErr = result1
+//@   after call 1 defaultImplConcatStreamReader: ghost inCat = result0
+//@   at call s: assert[native_gets_the_concatenated_input] @C04 inErr == nil && box(arg1) == inCat
+//@   at call s: ghost calls++
+//@   after call s: ghost nerr = result1
+//@   after call s: ghost nout = result0
+//@   after call s: assume result1 != nil || result0 != nil
+//@   note assumed: a node's stream function does not return a nil stream together with a nil error
+//@   ghost outErr error = nil
+//@   ghost outCat any = nil
+//@   at call 2 defaultImplConcatStreamReader: assert[concats_the_native_stream] @C04 nerr == nil && box(arg0) == nout
+//@   after call 2 defaultImplConcatStreamReader: ghost outErr = result1
+//@   after call 2 defaultImplConcatStreamReader: ghost outCat = result0
+//@   ensures[input_concat_error_reported] @C04 inErr != nil ==> err == inErr && calls == 0
+//@   ensures[native_called_once] @C04 inErr == nil ==> calls == 1
+//@   ensures[native_error_reported] @C04,C13 inErr == nil && nerr != nil ==> err != nil && errorsIs(err, nerr)
+//@   ensures[output_is_concat_of_native_stream] @C04 inErr == nil && nerr == nil ==> err == outErr && (outErr == nil ==> box(output) == outCat)
+
+//@ func transformByStream$1
+//@   props C04 C13
+//@   requires s != nil && input != nil
+//@   ghost calls int = 0
+//@   ghost nerr error = nil
+//@   ghost nout any = nil
+//@   ghost inErr error = nil
+//@   ghost inCat any = nil
+//@   at call 1 defaultImplConcatStreamReader: assert[concats_the_input_stream] @C04 arg0 == input
+//@   after call 1 defaultImplConcatStreamReader: ghost inErr = result1
+//@   after call 1 defaultImplConcatStreamReader: ghost inCat = result0
+//@   at call s: assert[native_gets_the_concatenated_input] @C04 inErr == nil && box(arg1) == inCat
+//@   at call s: ghost calls++
+//@   after call s: ghost nerr = result1
+//@   after call s: ghost nout = result0
+//@   ensures[input_concat_error_reported] @C04 inErr != nil ==> err == inErr && calls == 0
+//@   ensures[native_called_once] @C04 inErr == nil ==> calls == 1
+//@   ensures[native_error_reported] @C04,C13 inErr == nil && nerr != nil ==> err != nil && errorsIs(err, nerr)
+//@   ensures[native_output_returned] @C04 inErr == nil && nerr == nil ==> err == nil && box(output) == nout
+
+//@ func transformByCollect$1
+//@   props C04 C13
+//@   requires c != nil && input != nil
+//@   ghost calls int = 0
+//@   ghost nerr error = nil
+//@   ghost nout any = nil
+//@   at call c: assert[input_passed_unchanged] @C04 box(arg1) == box(input)
+//@   at call c: ghost calls++
+//@   after call c: ghost nerr = result1
+//@   after call c: ghost nout = result0
+//@   ensures[native_called_once] @C04 calls == 1
+//@   ensures[native_error_reported] @C04,C13 nerr != nil ==> err != nil && errorsIs(err, nerr)
+//@   ensures[output_boxed_as_one_chunk] @C04 nerr == nil ==> err == nil && output != nil && output.typ == schema.readerTypeArray && output.ar != nil && output.ar.index == 0 && len(output.ar.arr) == 1 && box(output.ar.arr[0]) == nout
+
+//@ func transformByInvoke$1
+//@   props C04 C13
+//@   requires i != nil && input != nil
+//@   ghost calls int = 0
+//@   ghost nerr error = nil
+//@   ghost nout any = nil
+//@   ghost inErr error = nil
+//@   ghost inCat any = nil
+//@   at call 1 defaultImplConcatStreamReader: assert[concats_the_input_stream] @C04 arg0 == input
+//@   after call 1 defaultImplConcatStreamReader: ghost inErr = result1
+//@   after call 1 defaultImplConcatStreamReader: ghost inCat = result0
+//@   at call i: assert[native_gets_the_concatenated_input] @C04 inErr == nil && box(arg1) == inCat
+//@   at call i: ghost calls++
+//@   after call i: ghost nerr = result1
+//@   after call i: ghost nout = result0
+//@   ensures[input_concat_error_reported] @C04 inErr != nil ==> err == inErr && calls == 0
+//@   ensures[native_called_once] @C04 inErr == nil ==> calls == 1
+//@   ensures[native_error_reported] @C04,C13 inErr == nil && nerr != nil ==> err != nil && errorsIs(err, nerr)
+//@   ensures[output_boxed_as_one_chunk] @C04 inErr == nil && nerr == nil ==> err == nil && output != nil && output.typ == schema.readerTypeArray && output.ar != nil && output.ar.index == 0 && len(output.ar.arr) == 1 && box(output.ar.arr[0]) == nout
+
+//@ func concatStreamReader
+//@   props C04 C19
+//@   requires sr != nil
+//@   ghost closes int = 0
+//@   ghost got int = 0
+//@   ghost lastErr error = nil
+//@   ghost first any = nil
+//@   at call sr.Close: ghost closes++
+//@   after call sr.Recv: ghost lastErr = result1
+//@   after call sr.Recv: ghost first = (result1 == nil && got == 0 ? box(result0) : first)
+//@   after call sr.Recv: ghost got = got + (result1 == nil ? 1 : 0)
+//@   ensures[drained_and_closed_once] @C19 closes == 1 && lastErr != nil
+//@   ensures[read_error_reported] @C04 lastErr != io.EOF ==> result1 != nil
+//@   ensures[empty_stream_is_an_error] @C04 lastErr == io.EOF && got == 0 ==> result1 == emptyStreamConcatErr
+//@   ensures[single_chunk_is_returned_as_is] @C04 lastErr == io.EOF && got == 1 ==> result1 == nil && box(result0) == first
+//@   loop 1:
+//@     modifies fresh()
+//@     invariant[items] (items == nil || fresh(items)) && len(items) == got && closes == 0 && got >= 0
+//@     invariant[first_kept] got >= 1 ==> box(items[0]) == first
+
+//@ func newStreamReadError
+//@   props C13 C04
+//@   ensures[wraps] result != nil && (err != nil ==> errorsIs(result, err))
+
+//@ func invokeByStream
+//@   props C04
+//@   pure
+//@   ensures[derived] result != nil
+//@ func invokeByCollect
+//@   props C04
+//@   pure
+//@   ensures[derived] result != nil
+//@ func invokeByTransform
+//@   props C04
+//@   pure
+//@   ensures[derived] result != nil
+//@ func streamByTransform
+//@   props C04
+//@   pure
+//@   ensures[derived] result != nil
+//@ func streamByInvoke
+//@   props C04
+//@   pure
+//@   ensures[derived] result != nil
+//@ func streamByCollect
+//@   props C04
+//@   pure
+//@   ensures[derived] result != nil
+//@ func collectByTransform
+//@   props C04
+//@   pure
+//@   ensures[derived] result != nil
+//@ func collectByInvoke
+//@   props C04
+//@   pure
+//@   ensures[derived] result != nil
+//@ func collectByStream
+//@   props C04
+//@   pure
+//@   ensures[derived] result != nil
+//@ func transformByStream
+//@   props C04
+//@   pure
+//@   ensures[derived] result != nil
+//@ func transformByCollect
+//@   props C04
+//@   pure
+//@   ensures[derived] result != nil
+//@ func transformByInvoke
+//@   props C04
+//@   pure
+//@   ensures[derived] result != nil
